@@ -1,5 +1,5 @@
-(* Xunitary's merge of repeated S2gates (C12/Model.v, section 3): refutations and the correctness theorem
-   under the hypothesis that at most one pair carries repeated squeezers. *)
+(* Xunitary's merge of repeated S2gates (C12/Model.v, section 3): the correctness theorem for every multiplicity on
+   every pair, and the refutations of the pre-fix version (the definitions named ..._old). *)
 From Coq Require Import List Arith Bool ZArith Lia.
 Import ListNotations.
 From SFV Require Import C12.Model.
@@ -31,36 +31,49 @@ Proof.
       apply Nat.eqb_eq in Ea, Eb. subst. contradiction.
 Qed.
 
-(* two pairs, each with two squeezers:  S2(1)|(0,2) S2(2)|(1,3) S2(3)|(0,2) S2(4)|(1,3)  ->  IndexError *)
-Theorem s2_refuted_indexerror :
+Definition S2z (i j : nat) (r phi : Z) : s2 Z := mkS2 i j r phi false.
+
+(* PRE-FIX version. two pairs, each with two squeezers:  S2(1)|(0,2) S2(2)|(1,3) S2(3)|(0,2) S2(4)|(1,3)  ->  IndexError *)
+Theorem s2_old_refuted_indexerror :
   exists (N : nat) (miss : list nat) (B : list (s2 Z)),
     forallb (allowed Z N) B = true /\ NoDup miss /\
     (forall i, In i miss <-> i < N /\ ~ In (i, i + N) (map (s2key Z) B)) /\
-    s2_stage Z 0%Z Z.add zneq N miss B = IndexErr.
+    s2_stage_old Z 0%Z Z.add zneq N miss B = IndexErr.
 Proof.
-  exists 2, [], [mkS2 0 2 1 0; mkS2 1 3 2 0; mkS2 0 2 3 0; mkS2 1 3 4 0]%Z.
+  exists 2, [], [S2z 0 2 1 0; S2z 1 3 2 0; S2z 0 2 3 0; S2z 1 3 4 0]%Z.
   split; [reflexivity|]. split; [constructor|]. split; [|reflexivity].
   apply miss_spec_by_compute; reflexivity.
 Qed.
 
-(* three pairs, two of them doubled: the stale indices remove the squeezer of pair (2,5) and merge it into (1,4) *)
-Theorem s2_refuted_silent :
+(* PRE-FIX version. three pairs, two of them doubled: the stale indices remove the squeezer of pair (2,5) *)
+Theorem s2_old_refuted_silent :
   exists (N : nat) (miss : list nat) (B out : list (s2 Z)),
     forallb (allowed Z N) B = true /\ NoDup miss /\
     (forall i, In i miss <-> i < N /\ ~ In (i, i + N) (map (s2key Z) B)) /\
-    s2_stage Z 0%Z Z.add zneq N miss B = Ok out /\
+    s2_stage_old Z 0%Z Z.add zneq N miss B = Ok out /\
     filter (fun x => key_eqb (s2key Z x) (2, 5)) B <> [] /\
     filter (fun x => key_eqb (s2key Z x) (2, 5)) out = [].
 Proof.
-  exists 3, [], [mkS2 0 3 1 0; mkS2 0 3 3 0; mkS2 1 4 2 0; mkS2 1 4 4 0; mkS2 2 5 7 0]%Z.
+  exists 3, [], [S2z 0 3 1 0; S2z 0 3 3 0; S2z 1 4 2 0; S2z 1 4 4 0; S2z 2 5 7 0]%Z.
   eexists. split; [reflexivity|]. split; [constructor|]. split; [apply miss_spec_by_compute; reflexivity|].
   split; [vm_compute; reflexivity|]. split; [discriminate | reflexivity].
 Qed.
 
-(* ------------------------------------------------------------------------------------------ *)
-(** * Correctness of one merge step, for every multiplicity *)
-From Coq Require Import Permutation.
+(* PRE-FIX version. S2gate(5).H and S2gate(3) on one pair are merged into r = 8; the current version gives -2 *)
+Theorem s2_old_refuted_dagger :
+  s2_stage_old Z 0%Z Z.add zneq 1 [] [mkS2 0 1 5 0 true; mkS2 0 1 3 0 false]%Z = Ok [S2z 0 1 8 0] /\
+  s2_stage Z 0%Z Z.add Z.opp zneq 1 [] [mkS2 0 1 5 0 true; mkS2 0 1 3 0 false]%Z = Ok [S2z 0 1 (-2) 0].
+Proof. split; reflexivity. Qed.
 
+(* the very same inputs on the current version *)
+Example s2_new_on_old_witnesses :
+  s2_stage Z 0%Z Z.add Z.opp zneq 2 [] [S2z 0 2 1 0; S2z 1 3 2 0; S2z 0 2 3 0; S2z 1 3 4 0]%Z
+    = Ok [S2z 0 2 4 0; S2z 1 3 6 0]%Z /\
+  s2_stage Z 0%Z Z.add Z.opp zneq 3 [] [S2z 0 3 1 0; S2z 0 3 3 0; S2z 1 4 2 0; S2z 1 4 4 0; S2z 2 5 7 0]%Z
+    = Ok [S2z 0 3 4 0; S2z 1 4 6 0; S2z 2 5 7 0]%Z.
+Proof. split; reflexivity. Qed.
+
+(* ------------------------------------------------------------------------------------------ *)
 Lemma key_eqb_eq a b : key_eqb a b = true <-> a = b.
 Proof.
   destruct a as [a1 a2], b as [b1 b2]; unfold key_eqb; simpl. rewrite andb_true_iff, !Nat.eqb_eq.
@@ -88,15 +101,18 @@ Qed.
 Lemma last_cons {A} (l : list A) : forall a d, last (a :: l) d = last l a.
 Proof. induction l as [|b l IH]; intros a d; [reflexivity|]. change (last (a :: b :: l) d) with (last (b :: l) d). rewrite !IH. reflexivity. Qed.
 
+From Coq Require Import Permutation.
 Section MergeOne.
   Variable K : Type.
   Variable kzero : K.
   Variable kadd : K -> K -> K.
+  Variable kneg : K -> K.
   Variable kneq : K -> K -> bool.
   Notation s2 := (s2 K).
   Notation s2key := (s2key K).
-  Notation pop_loop := (pop_loop K kadd kneq).
-  Notation merge_loop := (merge_loop K kzero kadd kneq).
+  Notation signed_r := (signed_r K kneg).
+  Notation pop_loop_gen := (pop_loop_gen K kadd kneq).
+  Notation merge_loop := (merge_loop K kzero kadd kneg kneq).
 
   Definition is_k (k : key) (c : s2) : bool := key_eqb (s2key c) k.
 
@@ -136,17 +152,18 @@ Section MergeOne.
     - rewrite app_nil_r. rewrite <- app_assoc. simpl. rewrite IH. rewrite app_nil_r, <- app_assoc. reflexivity.
   Qed.
 
+
   (* accumulation of r and phi over the popped commands, None = CircuitError *)
-  Fixpoint acc (rs : list s2) (first : bool) (r phi : K) : option (K * K) :=
+  Fixpoint acc (rof : s2 -> K) (rs : list s2) (first : bool) (r phi : K) : option (K * K) :=
     match rs with
     | [] => Some (r, phi)
-    | c :: rs' => if negb first && kneq (sphi c) phi then None else acc rs' false (kadd r (sr c)) (sphi c)
+    | c :: rs' => if negb first && kneq (sphi c) phi then None else acc rof rs' false (kadd r (rof c)) (sphi c)
     end.
 
-  Lemma pop_loop_pops : forall idx first B r phi rs B',
+  Lemma pop_loop_pops rof : forall idx first B r phi rs B',
     pops idx B = Some (rs, B') ->
-    pop_loop idx first B r phi =
-      match acc rs first r phi with Some (r', phi') => Ok (B', r', phi') | None => CircuitErr 3 end.
+    pop_loop_gen rof idx first B r phi =
+      match acc rof rs first r phi with Some (r', phi') => Ok (B', r', phi') | None => CircuitErr 3 end.
   Proof.
     induction idx as [|i idx IH]; intros first B r phi rs B' H; simpl in *.
     - inversion H; subst; reflexivity.
@@ -155,9 +172,9 @@ Section MergeOne.
       destruct (negb first && kneq (sphi c) phi); auto.
   Qed.
 
-  Lemma acc_from : forall rs r phi,
-    acc rs false r phi =
-      if phases_agree_from phi rs then Some (fold_left kadd (map sr rs) r, last (map sphi rs) phi) else None.
+  Lemma acc_from rof : forall rs r phi,
+    acc rof rs false r phi =
+      if phases_agree_from phi rs then Some (fold_left kadd (map rof rs) r, last (map sphi rs) phi) else None.
   Proof.
     induction rs as [|c rs IH]; intros r phi; simpl; auto.
     destruct (kneq (sphi c) phi); simpl; auto. rewrite IH.
@@ -165,31 +182,34 @@ Section MergeOne.
     symmetry. apply last_cons.
   Qed.
 
-  Lemma acc_first rs :
-    acc rs true kzero kzero =
-      if phases_agree rs then Some (fold_left kadd (map sr rs) kzero, last (map sphi rs) kzero) else None.
+  Lemma acc_first rof rs :
+    acc rof rs true kzero kzero =
+      if phases_agree rs then Some (fold_left kadd (map rof rs) kzero, last (map sphi rs) kzero) else None.
   Proof.
     destruct rs as [|c rs]; simpl; auto. rewrite acc_from.
     destruct (phases_agree_from (sphi c) rs); auto. f_equal. f_equal. symmetry. apply last_cons.
   Qed.
 
-  (* one iteration of the outer loop, for the key k whose locations were computed on the current list:
-     never an IndexError; CircuitError exactly when two successive phases differ; otherwise all commands
-     of k are removed, every other command is kept in order, and one merged command is inserted *)
-  Theorem merge_one (k : key) (B : list s2) :
+  (* the command that replaces the squeezers of pair k: r = the signed r's added from the last occurrence to the
+     first starting from 0, phase of the first occurrence, no dagger *)
+  Definition merged (k : key) (B : list s2) : s2 :=
     let bs := filter (is_k k) B in
-    let rest := filter (fun c => negb (is_k k c)) B in
-    let P := positions k (map s2key B) in
-    merge_loop [(k, P)] B =
-      if phases_agree (rev bs)
-      then Ok (insert_at (hd 0 P) (mkS2 (fst k) (snd k) (fold_left kadd (map sr (rev bs)) kzero) (last (map sphi (rev bs)) kzero)) rest)
+    mkS2 (fst k) (snd k) (fold_left kadd (map signed_r (rev bs)) kzero) (last (map sphi (rev bs)) kzero) false.
+
+  (* one iteration of the outer loop: never an IndexError; CircuitError exactly when two successive phases differ;
+     otherwise all commands of k are removed, every other command is kept in order, and one merged command is
+     inserted where the first one was *)
+  Theorem merge_step (k : key) (D : list key) (B : list s2) :
+    merge_loop (k :: D) B =
+      if phases_agree (rev (filter (is_k k) B))
+      then merge_loop D (insert_at (hd 0 (positions k (map s2key B))) (merged k B) (filter (fun c => negb (is_k k c)) B))
       else CircuitErr 3.
   Proof.
-    intros bs rest P. unfold Model.merge_loop.
+    simpl. unfold Model.pop_loop.
     pose proof (pops_positions k B []) as Hp. rewrite !app_nil_r in Hp.
-    fold (positions k (map s2key B)) in Hp. fold P in Hp.
-    rewrite (pop_loop_pops _ _ _ _ _ _ _ Hp). rewrite acc_first. fold bs.
-    destruct (phases_agree (rev bs)); reflexivity.
+    fold (positions k (map s2key B)) in Hp.
+    rewrite (pop_loop_pops _ _ _ _ _ _ _ _ Hp). rewrite acc_first.
+    destruct (phases_agree (rev (filter (is_k k) B))); reflexivity.
   Qed.
 
   Lemma insert_at_perm {A} (x : A) : forall i l, Permutation (insert_at i x l) (x :: l).
@@ -198,18 +218,23 @@ Section MergeOne.
     destruct l as [|y l]; auto. rewrite IH. apply perm_swap.
   Qed.
 
-  (* ... so the result is, as a multiset, the merged command plus all the commands of the other pairs *)
-  Corollary merge_one_perm (k : key) (B out : list s2) :
-    merge_loop [(k, positions k (map s2key B))] B = Ok out ->
-    let bs := filter (is_k k) B in
-    phases_agree (rev bs) = true /\
-    Permutation out (mkS2 (fst k) (snd k) (fold_left kadd (map sr (rev bs)) kzero) (last (map sphi (rev bs)) kzero)
-                     :: filter (fun c => negb (is_k k c)) B).
+  Lemma filter_insert_at_false {A} (f : A -> bool) (x : A) : f x = false ->
+    forall i l, filter f (insert_at i x l) = filter f l.
   Proof.
-    intros H bs. rewrite merge_one in H. fold bs in H.
-    destruct (phases_agree (rev bs)); [|discriminate]. inversion H; subst. split; auto. apply insert_at_perm.
+    intros Hx. induction i as [|i IH]; intros l; simpl; [rewrite Hx; reflexivity|].
+    destruct l as [|y l]; simpl; [rewrite Hx; reflexivity|]. rewrite IH. reflexivity.
+  Qed.
+
+  Lemma filter_insert_at_true {A} (f : A -> bool) (x : A) : f x = true ->
+    forall i l, Permutation (filter f (insert_at i x l)) (x :: filter f l).
+  Proof.
+    intros Hx. induction i as [|i IH]; intros l; simpl; [rewrite Hx; reflexivity|].
+    destruct l as [|y l]; simpl; [rewrite Hx; reflexivity|]. destruct (f y); auto.
+    rewrite IH. apply perm_swap.
   Qed.
 End MergeOne.
+
+
 
 (* ------------------------------------------------------------------------------------------ *)
 (** * The whole S2gate stage, under the hypothesis that at most one pair carries repeated squeezers *)
@@ -309,255 +334,3 @@ Proof.
   - destruct Hin as [->|[]]; reflexivity.
   - lia.
 Qed.
-
-Section Full.
-  Variable K : Type.
-  Variable kzero : K.
-  Variable kadd : K -> K -> K.
-  Variable kneq : K -> K -> bool.
-  Variable N : nat.
-  Notation s2 := (s2 K).
-  Notation s2key := (s2key K).
-  Notation is_k := (is_k K).
-  Notation phases_agree := (phases_agree K kneq).
-
-  Definition kz (i : nat) : key := (i, i + N).
-  Definition zs (i : nat) : s2 := mkS2 i (i + N) kzero kzero.
-
-  (* what the command c returned for pair (i, i+N) must be, in terms of the source squeezers of that pair *)
-  Definition spec_for (B : list s2) (i : nat) (c : s2) : Prop :=
-    match filter (is_k (kz i)) B with
-    | [] => c = zs i
-    | [b] => c = b
-    | bs => c = mkS2 i (i + N) (fold_left kadd (map sr (rev bs)) kzero) (last (map sphi (rev bs)) kzero)
-            /\ phases_agree (rev bs) = true
-    end.
-
-  Lemma count_cmd k (B : list s2) : count_key k (map s2key B) = length (filter (is_k k) B).
-  Proof.
-    induction B as [|a B IH]; simpl; auto. rewrite count_cons. unfold Merge.is_k at 1. rewrite key_eqb_sym.
-    destruct (key_eqb (s2key a) k); simpl; rewrite IH; reflexivity.
-  Qed.
-
-  Lemma filter_single (out : list s2) c : NoDup (map s2key out) -> In c out -> filter (is_k (s2key c)) out = [c].
-  Proof.
-    induction out as [|a t IH]; intros Hn Hin; [contradiction|]. simpl in Hn. inversion Hn as [|x l Hna Hnt]; subst.
-    simpl. destruct Hin as [->|Hin].
-    - unfold Merge.is_k at 1. rewrite key_eqb_refl. f_equal. apply filter_false. intros x Hx. unfold Merge.is_k.
-      destruct (key_eqb (s2key x) (s2key c)) eqn:E; auto. apply key_eqb_eq in E. exfalso; apply Hna. rewrite <- E. apply in_map; auto.
-    - assert (E0 : is_k (s2key c) a = false).
-      { unfold Merge.is_k. destruct (key_eqb (s2key a) (s2key c)) eqn:E; auto. apply key_eqb_eq in E. exfalso. apply Hna. rewrite E. apply in_map; auto. }
-      rewrite E0. apply IH; auto.
-  Qed.
-
-  Lemma kz_inj : Injective kz.
-  Proof. intros i j H. inversion H; auto. Qed.
-
-  Definition AK : list key := map kz (seq 0 N).
-  Lemma AK_nodup : NoDup AK.
-  Proof. apply Injective_map_NoDup; [apply kz_inj | apply seq_NoDup]. Qed.
-  Lemma AK_length : length AK = N.
-  Proof. unfold AK. rewrite map_length, seq_length. reflexivity. Qed.
-  Lemma AK_in k : In k AK <-> exists i, i < N /\ k = kz i.
-  Proof.
-    unfold AK. rewrite in_map_iff. split; intros [i [H1 H2]].
-    - exists i. apply in_seq in H2. split; [lia | auto].
-    - exists i. split; auto. apply in_seq. lia.
-  Qed.
-
-  Lemma length_from_nodup (ks : list key) :
-    NoDup ks -> (forall k, In k ks -> exists i, i < N /\ k = kz i) -> (forall i, i < N -> In (kz i) ks) -> length ks = N.
-  Proof.
-    intros Hn H1 H2. rewrite <- AK_length. apply Nat.le_antisymm.
-    - apply NoDup_incl_length; auto. intros k Hk. apply AK_in. auto.
-    - apply NoDup_incl_length; [apply AK_nodup|]. intros k Hk. apply AK_in in Hk as [i [Hi ->]]. auto.
-  Qed.
-
-  Lemma add_missing_eq miss (B : list s2) : add_missing K kzero N miss B = rev (map zs miss) ++ B.
-  Proof.
-    unfold add_missing. revert B. induction miss as [|a miss IH]; intros B; simpl; auto.
-    rewrite IH. rewrite <- app_assoc. reflexivity.
-  Qed.
-
-  Section Hyps.
-    Variable miss : list nat.
-    Variable B : list s2.
-    Hypothesis Hall : forallb (allowed K N) B = true.
-    Hypothesis Hmiss_nd : NoDup miss.
-    Hypothesis Hmiss : forall i, In i miss <-> i < N /\ ~ In (kz i) (map s2key B).
-
-    Let B1 := rev (map zs miss) ++ B.
-    Let keys1 := map s2key B1.
-
-    Lemma allowed_key c : In c B -> exists i, i < N /\ s2key c = kz i.
-    Proof.
-      intros H. rewrite forallb_forall in Hall. specialize (Hall c H). unfold allowed in Hall.
-      apply andb_prop in Hall as [H1 H2]. apply Nat.ltb_lt in H1. apply Nat.eqb_eq in H2.
-      exists (mi c). split; auto. unfold Model.s2key, kz. rewrite H2. reflexivity.
-    Qed.
-
-    Lemma keys_miss : map s2key (rev (map zs miss)) = rev (map kz miss).
-    Proof. rewrite map_rev, map_map. reflexivity. Qed.
-
-    Lemma keys1_eq : keys1 = rev (map kz miss) ++ map s2key B.
-    Proof. unfold keys1, B1. rewrite map_app, keys_miss. reflexivity. Qed.
-
-    Lemma count_miss k : count_key k (rev (map kz miss)) <= 1.
-    Proof. rewrite count_rev. apply count_nodup. apply Injective_map_NoDup; [apply kz_inj | auto]. Qed.
-
-    Lemma incl1 : forall k, In k keys1 -> exists i, i < N /\ k = kz i.
-    Proof.
-      intros k. rewrite keys1_eq, in_app_iff, <- in_rev, !in_map_iff. intros [[i [<- Hi]]|[c [<- Hc]]].
-      - exists i. split; auto. apply Hmiss in Hi. tauto.
-      - apply allowed_key; auto.
-    Qed.
-
-    Lemma incl2 : forall i, i < N -> In (kz i) keys1.
-    Proof.
-      intros i Hi. rewrite keys1_eq, in_app_iff, <- in_rev.
-      destruct (count_key (kz i) (map s2key B)) eqn:E.
-      - left. apply in_map. apply Hmiss. split; auto. rewrite count_in. lia.
-      - right. apply count_in. lia.
-    Qed.
-
-    Lemma dup1_dupB k : 1 < count_key k keys1 ->
-      count_key k (rev (map kz miss)) = 0 /\ 1 < count_key k (map s2key B).
-    Proof.
-      rewrite keys1_eq, count_app. pose proof (count_miss k) as Hm.
-      destruct (count_key k (rev (map kz miss))) eqn:E; [intros; split; lia|].
-      assert (Hin : In k (rev (map kz miss))) by (apply count_in; lia).
-      rewrite <- in_rev, in_map_iff in Hin. destruct Hin as [i [<- Hi]].
-      apply Hmiss in Hi as [_ Hni]. rewrite count_in in Hni. lia.
-    Qed.
-
-    Lemma spec_from_B1 i c : filter (is_k (kz i)) B1 = [c] -> spec_for B i c.
-    Proof.
-      unfold B1. rewrite filter_app.
-      assert (Hmp : forall x, In x (filter (is_k (kz i)) (rev (map zs miss))) -> x = zs i).
-      { intros x Hx. apply filter_In in Hx as [Hx1 Hx2]. rewrite <- in_rev, in_map_iff in Hx1.
-        destruct Hx1 as [j [<- _]]. unfold Merge.is_k in Hx2. apply key_eqb_eq in Hx2.
-        change (s2key (zs j)) with (kz j) in Hx2. apply kz_inj in Hx2. subst; reflexivity. }
-      set (mp := filter (is_k (kz i)) (rev (map zs miss))) in *.
-      unfold spec_for. destruct (filter (is_k (kz i)) B) as [|b [|b2 t]].
-      - rewrite app_nil_r. intros H. apply Hmp. rewrite H. left; reflexivity.
-      - intros H. destruct mp as [|m [|m2 mp']]; simpl in H; inversion H; reflexivity.
-      - intros H. apply (f_equal (@length _)) in H. rewrite app_length in H. simpl in H. lia.
-    Qed.
-
-    Lemma cmd_of_key (l : list s2) k : In k (map s2key l) -> exists x, In x l /\ s2key x = k.
-    Proof. rewrite in_map_iff. intros [x [H1 H2]]; eauto. Qed.
-
-    Lemma key_fields (x : s2) i : s2key x = kz i -> mi x = i /\ mj x = i + N.
-    Proof. unfold Model.s2key, kz. intros H; inversion H; auto. Qed.
-
-    (* the result is B1 itself and its keys are duplicate-free *)
-    Lemma ok_case : NoDup keys1 ->
-      length B1 = N /\ forall i, i < N -> exists c, filter (is_k (kz i)) B1 = [c] /\ mi c = i /\ mj c = i + N /\ spec_for B i c.
-    Proof.
-      intros Hnd. split.
-      - rewrite <- (map_length s2key). apply length_from_nodup; auto; [apply incl1 | apply incl2].
-      - intros i Hi. destruct (cmd_of_key B1 (kz i) (incl2 i Hi)) as [x [Hx Hk]].
-        exists x. pose proof (filter_single B1 x Hnd Hx) as Hf. rewrite Hk in Hf.
-        destruct (key_fields x i Hk). repeat split; auto. apply spec_from_B1; auto.
-    Qed.
-
-    Theorem s2_stage_correct :
-      (forall k1 k2, 1 < count_key k1 (map s2key B) -> 1 < count_key k2 (map s2key B) -> k1 = k2) ->
-      match s2_stage K kzero kadd kneq N miss B with
-      | IndexErr => False
-      | CircuitErr c =>
-          c = 3 /\ exists k, 1 < count_key k (map s2key B) /\ phases_agree (rev (filter (is_k k) B)) = false
-      | Ok out =>
-          length out = N /\
-          forall i, i < N -> exists c, filter (is_k (kz i)) out = [c] /\ mi c = i /\ mj c = i + N /\ spec_for B i c
-      end.
-    Proof.
-      intros Hone. unfold s2_stage. rewrite Hall. simpl negb. cbv iota. rewrite add_missing_eq.
-      fold B1. fold keys1.
-      destruct (N <? length keys1) eqn:Elen.
-      2:{ apply Nat.ltb_ge in Elen. apply ok_case.
-          apply (NoDup_incl_NoDup AK_nodup); [rewrite AK_length; auto|].
-          intros k Hk. apply AK_in in Hk as [i [Hi ->]]. apply incl2; auto. }
-      apply Nat.ltb_lt in Elen. rewrite list_duplicates_eq.
-      destruct (first_occ_spec keys1 []) as [Hfo1 Hfo2].
-      set (D := filter (fun k => 1 <? count_key k keys1) (first_occ [] keys1)).
-      assert (HinD : forall k, In k D <-> 1 < count_key k keys1).
-      { intros k. unfold D. rewrite filter_In, Nat.ltb_lt, Hfo2. split; [tauto|]. intros H. split; auto. split; [apply count_in; lia | tauto]. }
-      assert (HD : D = [] \/ exists k0, D = [k0]).
-      { apply nodup_all_equal; [apply NoDup_filter; auto|]. intros a b Ha Hb. apply HinD in Ha, Hb.
-        apply Hone; apply dup1_dupB; auto. }
-      destruct HD as [HD | [k0 HD]]; rewrite HD; simpl map.
-      - exfalso. assert (Hnd : NoDup keys1).
-        { apply nodup_count. intros k. destruct (le_lt_dec (count_key k keys1) 1); auto.
-          exfalso. apply HinD in l. rewrite HD in l. contradiction. }
-        pose proof (length_from_nodup keys1 Hnd incl1 incl2). lia.
-      - assert (Hk0c : 1 < count_key k0 keys1) by (apply HinD; rewrite HD; left; reflexivity).
-        assert (Hle1 : forall k, k <> k0 -> count_key k keys1 <= 1).
-        { intros k Hne. destruct (le_lt_dec (count_key k keys1) 1); auto. apply HinD in l. rewrite HD in l.
-          destruct l as [->|[]]. congruence. }
-        destruct (dup1_dupB k0 Hk0c) as [Hm0 HcB].
-        unfold keys1. rewrite (merge_one K kzero kadd kneq k0 B1).
-        assert (Ebs : filter (is_k k0) B1 = filter (is_k k0) B).
-        { unfold B1. rewrite filter_app. replace (filter (is_k k0) (rev (map zs miss))) with (@nil s2); auto.
-          symmetry. apply length_zero_iff_nil. rewrite <- count_cmd, keys_miss. exact Hm0. }
-        rewrite Ebs. destruct (phases_agree (rev (filter (is_k k0) B))) eqn:Eph.
-        2:{ split; auto. exists k0; auto. }
-        set (merged := mkS2 (fst k0) (snd k0) (fold_left kadd (map sr (rev (filter (is_k k0) B))) kzero)
-                         (last (map sphi (rev (filter (is_k k0) B))) kzero)).
-        set (rest := filter (fun c => negb (is_k k0 c)) B1).
-        set (out := insert_at (hd 0 (positions k0 (map s2key B1))) merged rest).
-        assert (Hperm : Permutation out (merged :: rest)) by apply insert_at_perm.
-        assert (Hk0in : In k0 keys1) by (apply count_in; lia).
-        destruct (incl1 k0 Hk0in) as [i0 [Hi0 Ek0]].
-        assert (Hkm : s2key merged = k0) by (unfold merged, Model.s2key; simpl; destruct k0; reflexivity).
-        assert (Hrest_in : forall x, In x rest <-> In x B1 /\ s2key x <> k0).
-        { intros x. unfold rest. rewrite filter_In. unfold Merge.is_k. split; intros [H1 H2]; split; auto.
-          - intros E. apply key_eqb_eq in E. rewrite E in H2. discriminate.
-          - destruct (key_eqb (s2key x) k0) eqn:E; auto. apply key_eqb_eq in E. contradiction. }
-        assert (Hnd_rest : NoDup (map s2key rest)).
-        { apply nodup_count. intros k. rewrite count_cmd. destruct (key_eqb k k0) eqn:E.
-          - apply key_eqb_eq in E; subst k. rewrite filter_false; [simpl; lia|].
-            intros x Hx. apply Hrest_in in Hx as [_ Hx]. unfold Merge.is_k. destruct (key_eqb (s2key x) k0) eqn:E2; auto.
-            apply key_eqb_eq in E2. contradiction.
-          - unfold rest. etransitivity; [apply filter_filter_length|]. rewrite <- count_cmd. apply Hle1.
-            intros ->. rewrite key_eqb_refl in E. discriminate. }
-        assert (Hnd_out : NoDup (map s2key out)).
-        { apply (Permutation_NoDup (l := k0 :: map s2key rest)).
-          - symmetry. rewrite <- Hkm. change (s2key merged :: map s2key rest) with (map s2key (merged :: rest)).
-            apply Permutation_map; auto.
-          - constructor; auto. intros Hin. apply cmd_of_key in Hin as [x [Hx Hk]]. apply Hrest_in in Hx. tauto. }
-        assert (Hin_out : forall x, In x out <-> x = merged \/ In x rest).
-        { intros x. split; intros H.
-          - apply (Permutation_in _ Hperm) in H. destruct H; auto.
-          - apply (Permutation_in _ (Permutation_sym Hperm)). destruct H; [left; auto | right; auto]. }
-        split.
-        + rewrite <- (map_length s2key). apply length_from_nodup; auto.
-          * intros k Hk. apply cmd_of_key in Hk as [x [Hx Hk]]. apply Hin_out in Hx as [->|Hx].
-            -- rewrite Hkm in Hk. subst k. eauto.
-            -- apply incl1. subst k. apply in_map. apply Hrest_in in Hx. tauto.
-          * intros i Hi. destruct (key_eqb (kz i) k0) eqn:E.
-            -- apply key_eqb_eq in E. rewrite E, <- Hkm. apply in_map. apply Hin_out; auto.
-            -- destruct (cmd_of_key B1 (kz i) (incl2 i Hi)) as [x [Hx Hk]]. rewrite <- Hk. apply in_map.
-               apply Hin_out. right. apply Hrest_in. split; auto. rewrite Hk. intros E2. rewrite E2, key_eqb_refl in E. discriminate.
-        + intros i Hi. destruct (key_eqb (kz i) k0) eqn:E.
-          * apply key_eqb_eq in E. exists merged.
-            pose proof (filter_single out merged Hnd_out (proj2 (Hin_out merged) (or_introl eq_refl))) as Hf.
-            rewrite Hkm, <- E in Hf. split; auto.
-            assert (Hf1 : fst k0 = i) by (rewrite <- E; reflexivity).
-            assert (Hf2 : snd k0 = i + N) by (rewrite <- E; reflexivity).
-            split; [exact Hf1|]. split; [exact Hf2|].
-            unfold spec_for. rewrite E.
-            assert (Hlen : 1 < length (filter (is_k k0) B)) by (rewrite <- count_cmd; auto).
-            destruct (filter (is_k k0) B) as [|b1 [|b2 t]] eqn:Ef; simpl in Hlen; try lia.
-            split; auto. unfold merged. rewrite Hf1, Hf2. reflexivity.
-          * destruct (cmd_of_key B1 (kz i) (incl2 i Hi)) as [x [Hx Hk]].
-            assert (Hne : kz i <> k0) by (intros E2; rewrite E2, key_eqb_refl in E; discriminate).
-            assert (Hxr : In x rest) by (apply Hrest_in; split; auto; rewrite Hk; auto).
-            exists x. pose proof (filter_single out x Hnd_out (proj2 (Hin_out x) (or_intror Hxr))) as Hf.
-            rewrite Hk in Hf. destruct (key_fields x i Hk). repeat split; auto.
-            apply spec_from_B1. apply length_le1_in.
-            -- rewrite <- count_cmd. apply Hle1; auto.
-            -- apply filter_In. split; auto. unfold Merge.is_k. rewrite Hk. apply key_eqb_refl.
-    Qed.
-  End Hyps.
-End Full.
